@@ -3,6 +3,10 @@
 import json
 
 CLAIMS = {
+ "C08": dict(cat="model_checking", design="6 C08",
+  text="89 syntactic positions (every slice bound in every form, every index level, both sides of all assignment kinds, every for clause, named/positional arguments at depth, map keys, deep blocks, ...) x 408 offenders (unknown function, every wrong arity 0..4 and every forbidden argument kind of each of 22 builtins) are loaded through the real check pass; v2 gets unknown functions and every unbindable call shape; break/continue in 12 placements on both passes; 44 reduced function tables. Rejected iff an offender is present, the first error position must lie inside the offender, and every valid call of every builtin must load in every position.",
+  note="The per-builtin rules come from a reference table written from the function documentation and checkers (DESIGN.md appendix A). One offender per program.",
+  tech="bounded-exhaustive enumeration of (syntactic position x offender x function table) on the real loaders with a rejected-iff-offender oracle"),
  "C05": dict(cat="model_checking", design="6 C05",
   text="Every byte string up to length 4 (quick) / 5 (thorough) over a 35-byte alphabet with one byte per lexer branch, every sequence of up to 3/4 tokens from a 56-token alphabet, every single (thorough: double) token mutation of 31 valid programs and deep nestings are parsed by the real parser; each must end with a tree xor an error naming the script with an offset inside the source and consistent line/column, and the exported lexer's items must tile the source. 1.7 million texts in the quick tier, enumerated completely.",
   note="Texts longer than the bound are only reached through the token and mutation alphabets. Termination is observed through the worker progress slot.",
